@@ -11,7 +11,6 @@ a limited buffer, every assignment and every context copy.
 
 from __future__ import annotations
 
-import copy
 import random
 import re
 import sys
@@ -42,25 +41,35 @@ RULE = (
 )
 ASSUMPTIONS = [
     "the unrestricted render (all limits None, default context depth) defines the program's "
-    "consumption and reference output; programs whose unrestricted render fails are skipped",
+    "consumption and reference output; programs whose unrestricted render fails are skipped, so are "
+    "programs producing more than 60 kB of output / local values (text doubling in loops)",
     "namespace size is the documented measure: sum of sys.getsizeof(value) over local values of "
     "every live context on the parent chain (computed by the monitor, not read from the engine)",
     "a loop nest is a chain of dynamically nested loop constructs identified by template source "
     "and token offset, including the call sites between them; sibling loops and different call "
-    "sites are different nests (never merged)",
+    "sites are different nests (never merged); the `else` branch of a loop is outside the loop",
     "'must succeed' for loops is demanded only when L >= the product of the observed iteration "
     "counts of every enclosing loop and the program contains no break (the engine documents "
-    "counting by declared lengths); for output only when L >= the peak of bytes written to a "
-    "buffer plus its engine-visible parent chain",
+    "counting by declared lengths); for output only when L >= the peak over buffers of bytes "
+    "written plus the bytes of the parent buffer at creation (what get_output_buffer carries)",
+    "the statement bounds the *returned* output; for capture buffers only the engine's own one-level "
+    "carry is checked (bytes written <= limit - parent bytes at creation). Renders in which the bytes "
+    "along the real buffer chain (nested captures, capture under a blank block whose parent is a "
+    "NullIO) pass the limit while every buffer stays within its allowance are counted as an "
+    "observation (obs_buffer_chain_past_limit_renders), not as violations",
     "loop_iteration_limit / local_namespace_limit == 0 is probed separately (kind 'zero')",
-    "context depth: nested partial activations and copy depth must stay <= limit + 1 (the engine "
-    "compares with '>' against a counter starting at 0); thresholds are located by scanning",
-    "step budget 3e6 function activations per render; termination of cyclic graphs is judged in "
-    "worker processes where the engine's classes are NOT wrapped, under CPython's default recursion "
-    "limit (1000) and context_depth_limit <= 31 (default 30); about 10 harness frames sit below the render",
+    "context depth: copy depth and nested extensions of one context must stay <= limit + 1 (the engine "
+    "compares with '>' against counters starting at 0 / 4); thresholds are located by scanning all "
+    "limits 0..4*depth+12 and must be monotone",
+    "step budget 3e6 function activations per render (6e5 for cyclic graphs); termination of cyclic "
+    "graphs is judged in worker processes where the engine's classes are NOT wrapped, under CPython's "
+    "default recursion limit (1000) and context_depth_limit <= 31 (default 30); about 10 harness "
+    "frames sit below the render",
 ]
 
 STEP_BUDGET = 3_000_000
+HEAVY_BYTES = 60_000
+HEAVY_STEPS = 600_000
 HUGE = {"out": 10**9, "loop": 10**9, "ns": 10**15}
 ATTR = {
     "out": "output_stream_limit",
@@ -117,6 +126,7 @@ class Runner:
         self.sc = StepCounter().start()
         self._classes: dict[tuple, type] = {}
         self.minimised: set[str] = set()
+        self.noted_obs = False
 
     def close(self) -> None:
         self.sc.stop()
@@ -298,6 +308,11 @@ def judge_out(rn: Runner, f: Facts, L: int, mode: str) -> list[tuple[str, str, d
                              f"in its parent chain under limit {L}", ex))
         if m.null_parent_over:
             ctx.count("obs_buffer_chain_past_limit_renders", 1)
+            if not rn.noted_obs:
+                rn.noted_obs = True
+                ctx.note("observation (not a violation of the statement): under output limit "
+                         f"{L} the bytes held along a chain of buffers exceeded the limit although every buffer "
+                         f"was within its own allowance; root={f.case['root']!r:.200} partials={f.case['partials']!r:.200}")
     if r.status == "ok":
         O = r.out or ""
         ob = len(O.encode("utf-8", "surrogatepass"))
@@ -382,7 +397,7 @@ def judge_ns(rn: Runner, f: Facts, L: int, mode: str) -> list[tuple[str, str, di
         ctx.count("assign_hook_hits", m.assigns)
         if m.ns_over is not None:
             o = m.ns_over
-            sub = "engine-undercounts" if o["engine_size"] <= L else "check-skipped"
+            sub = o["why"]
             out.append((f"namespace-limit:exceeded-without-error:{sub}",
                         f"assignment accepted with {o['size']} bytes of local values on the live context chain "
                         f"(engine counts {o['engine_size']}, context depth {o['depth']}) under limit {L}", ex))
@@ -470,6 +485,11 @@ def check_case(rn: Runner, case: dict[str, Any], rng: random.Random, kinds: tupl
         if record:
             ctx.count("skipped_unrestricted_" + f.res.status)
             ctx.seen("skip_reasons", f"{f.res.err}:{f.res.msg[:50]}")
+        return None
+    if f.Ub > HEAVY_BYTES or f.N > HEAVY_BYTES or f.res.steps > HEAVY_STEPS:
+        # (text doubling inside loops: every further render would cost seconds)
+        if record:
+            ctx.count("skipped_heavy")
         return None
     found = list(f.findings)
     found += judge_huge(rn, f, "sync")  # also measures the capture peak P
